@@ -20,7 +20,7 @@ RULE = (
     "p+1 rational s, box() against 65 exact points per segment; `point in segment`: 8 regular float segments per degree (x monotone, "
     "no cusps/loops), segment(k/32) must be `in`, points at normal offsets +-1e-4, +-1e-2 must not; winding_number(segment, centre) "
     "against the exactly subdivided subtended angle for a 9x9 grid of centres; after all these queries the SAME object is "
-    "inverted in place and evaluation / derivatives / split / point-on-curve / area are asked again against the reversed polygon. non-trivial = all; distinct = (degree, polygon, query)."
+    "inverted in place and evaluation / derivatives / split / point-on-curve / area are asked again against the reversed polygon; finally the degrees are visited in the order 1,2,3,4,5,6,5,4,3,2,1,4,2,6,1,3,5 in ONE process (memo tables keyed by degree). non-trivial = all; distinct = (degree, polygon, query)."
 )
 ASSUMPTIONS = ["rational Newton projections (`in` on Fraction segments of degree >= 3) are excluded: minutes per query in exact arithmetic"]
 CASE_TIMEOUT = 1500
@@ -66,7 +66,7 @@ def regular_segments(p):
 
 
 def cases(tier, seed):
-    return [{"id": "degree%d" % p, "degree": p} for p in range(1, 7)]
+    return [{"id": "degree%d" % p, "degree": p} for p in range(1, 7)] + [{"id": "sequence", "sequence": True}]
 
 
 def exact_derivative(ctrl, k):
@@ -99,7 +99,7 @@ def subtended(ctrl, center):
     return total
 
 
-def run_case(spec):
+def _run_degree(spec):
     from .. import lib
     from itertools import combinations
 
@@ -112,7 +112,8 @@ def run_case(spec):
         viols.append({"case_id": "deg%d %s :: %s" % (p, cid, tag), "what": msg, "replay": rep})
 
     ts = [F(k, 12) for k in range(13)]
-    for name, ctrl in polygons(p):
+    quick_only = spec.get("sequence_step") is not None
+    for name, ctrl in (polygons(p)[:2] + polygons(p)[-3:] if quick_only else polygons(p)):
         exact = all(not isinstance(v, float) for q in ctrl for v in q)
         ref = [(rg.ex(x), rg.ex(y)) for x, y in ctrl]
         tol = F(0) if exact else F(1, 10**12)
@@ -225,7 +226,7 @@ def run_case(spec):
             if st != "ok" or len(pieces) != 2 or any(abs(rg.ex(pieces[1](F(1, 2))[i]) - rg.bez_eval(rref, F(2, 3))[i]) > tol for i in (0, 1)):
                 fail(name, "invert-split", "after invert(), split(1/3) does not retrace the reversed segment")
     # point on curve and winding for regular float segments
-    for name, ctrl in regular_segments(p):
+    for name, ctrl in (regular_segments(p)[:1] if quick_only else regular_segments(p)):
         seg = lib.PlanarCurve(ctrl)
         ref = [(rg.ex(x), rg.ex(y)) for x, y in ctrl]
         d1 = rg.bez_deriv(ref)
@@ -290,6 +291,30 @@ def run_case(spec):
             seen.add(v["case_id"])
             out.append(v)
     return {"violations": out, "evals": evals, "nontrivial": nontrivial, "hist": hist, "sample": {"degree": p, "polygons": [n for n, _ in polygons(p)][:6]}}
+
+
+SEQUENCE = [1, 2, 3, 4, 5, 6, 5, 4, 3, 2, 1, 4, 2, 6, 1, 3, 5]
+
+
+def run_case(spec):
+    """One degree (all polygons) or, for the 'sequence' case, a walk through the degrees in
+    one process: class-level memo tables keyed by degree must not leak between degrees."""
+    if "sequence" not in spec:
+        return _run_degree(spec)
+    out = {"violations": [], "evals": 0, "nontrivial": [], "hist": {}, "sample": {"sequence": SEQUENCE}}
+    for step, p in enumerate(SEQUENCE):
+        r = _run_degree({"id": spec["id"], "degree": p, "sequence_step": step})
+        for v in r["violations"]:
+            v["case_id"] = "in sequence %s (step %d): %s" % (SEQUENCE[: step + 1], step, v["case_id"])
+            v["replay"] = {"id": "replay:sequence", "sequence": True}
+            out["violations"].append(v)
+        out["evals"] += r["evals"]
+        out["nontrivial"] += [("seq", step) + tuple(k) for k in r["nontrivial"]]
+        for k, n in r["hist"].items():
+            out["hist"][k] = out["hist"].get(k, 0) + n
+        if out["violations"]:
+            break
+    return out
 
 
 def finalize(results, cov):
